@@ -670,7 +670,10 @@ def _make_call_meth(body, return_type, param_names, docstring_format, word_wrap)
                                 )
                             )
                         ),
-                        RewriteName(param_names).visit(
+                        # A return entry without a default has nothing to return
+                        None
+                        if "default" not in body
+                        else RewriteName(param_names).visit(
                             Return(
                                 get_value(ast.parse(return_type.strip("`")).body[0]),
                                 expr=None,
@@ -680,7 +683,7 @@ def _make_call_meth(body, return_type, param_names, docstring_format, word_wrap)
                         else Return(set_value(body["default"]), expr=None),
                     ),
                 )
-            )
+            ) or [ast.Pass()]
 
         # elif isinstance(body[0], Expr):
         #     doc_str = get_value(body[0].value)
